@@ -34,6 +34,8 @@ Conv3Why(e) ==
           ELSE IF ~ClampOk(e.to, e.t, u, e.lo, hi, sb, c) THEN "from_color-not-clamp-of-unclamped"
           ELSE IF ~WithinFlagOk(e.to, e.t, u, e.lo, hi, sb, e.t_ok) THEN "try_from_color-verdict-wrong"
           ELSE IF e.tv # e.u THEN "try_from_color-value-differs"
+          \* whole containers (Vec, Box<[_]>) converted by the clamping conversion: element for element the same value
+          ELSE IF "cvec" \in DOMAIN e /\ (e.cvec # e.c \/ e.cbox # e.c) THEN "container-from_color-differs"
           ELSE "ok"
 
 ConstsWhy(e) ==
